@@ -188,6 +188,10 @@ type Frag struct {
 	Arg         int    `json:"arg"`    // fixed: chunk size
 	Seed        uint64 `json:"seed"`   // random/small
 	EOFWithData bool   `json:"eof_with_data"`
+	// Scribble: a short read uses the rest of the caller's buffer as scratch space
+	// (the io.Reader contract allows it: "even if Read returns n < len(p), it may
+	// use all of p as scratch space during the call").
+	Scribble bool `json:"scribble,omitempty"`
 }
 
 // SrcFault describes a fault of the source io.ReadSeeker.
@@ -358,6 +362,17 @@ func (s *Source) Read(p []byte) (int, error) {
 		s.Stats.Shortened++
 	}
 	copy(p, s.data[s.pos:s.pos+int64(n)])
+	if s.Frag != nil && s.Frag.Scribble {
+		// bounded work per call: the 64 bytes right after the data and the last 64 bytes of the buffer
+		for i := n; i < len(p) && i < n+64; i++ {
+			p[i] = 0xA7 ^ byte(i)
+		}
+		for i := len(p) - 64; i < len(p); i++ {
+			if i >= n {
+				p[i] = 0xA7 ^ byte(i)
+			}
+		}
+	}
 	s.pos += int64(n)
 	var err error
 	if s.Frag != nil && s.Frag.EOFWithData && s.pos == int64(len(s.data)) {
